@@ -109,6 +109,7 @@ type crashKey struct {
 	vals    map[string][]byte // value id -> content of every upload ever started for this key
 	acked   map[string]bool   // value ids of acknowledged uploads
 	flying  map[string]bool   // value ids of uploads in flight at the kill
+	sentBad [][]byte          // payloads of uploads to this key whose bytes did not match the digest (they must be rejected)
 	fetched map[string]bool   // value ids of completed fetches through the backend (complete, but nobody was promised they stay)
 	flight  bool              // an upload was in flight at the kill
 }
@@ -247,6 +248,7 @@ func crashBody(c *Ctx, s *sim.Sim, at int, tag string) (victimSteps int) {
 				bad := append([]byte(nil), b.Data...)
 				bad[r.Intn(len(bad))] ^= 0x20
 				op.send = bad
+				k.sentBad = append(k.sentBad, bad)
 			}
 			if kind == cache.CAS {
 				op.via = r.Intn(3)
@@ -494,6 +496,13 @@ func verifyKey(s *sim.Sim, cl *world.Client, k *crashKey, roomy bool, cfg world.
 				hits++
 				if !bytes.Equal(x.res.Data, content) {
 					what := "wrong-bytes"
+					for _, bad := range k.sentBad {
+						if k.flight && bytes.HasPrefix(bad, x.res.Data) {
+							// the bytes, as far as they got, of an upload in flight at the kill
+							// that did not match its digest and would have been rejected
+							what = "unverified-inflight-upload"
+						}
+					}
 					if k.flight && len(x.res.Data) < len(content) && bytes.HasPrefix(content, x.res.Data) {
 						what = "torn-inflight-prefix" // the file of an upload that was in flight at the kill, as far as it got
 						if len(k.acked) > 0 {
